@@ -164,6 +164,19 @@ let handle (f : Stdlib.String.t array) : Stdlib.String.t =
     let opt s = if s = "~" then None else Some (dec_lines s) in
     show_lines (db_assign_tag (dec_str "W") (dec_str "T") (dec_str f.(1)) (dec_str f.(2)) (dec_str f.(3)) req
                   (opt f.(5)) (opt f.(6)))
+  | "dbassignin" ->
+    (* Database.assignTag with the chain file kept in the product's own database, the user's tag directory
+       or the database named by writeableDB: name, tag, version, flavors, text of the version file, the
+       product's own directory, user tag? (1/0), the user's directory (~: none), writeableDB's (~: none),
+       number of chain files, then (directory, text) per chain file.  Answer: the chain files afterwards *)
+    let req = if f.(4) = "~" then None else Some (List.map dec_str (split_sep ',' f.(4))) in
+    let opt s = if s = "~" then None else Some (dec_lines s) in
+    let n = int_of_string f.(10) in
+    let cs = List.init n (fun i -> (dec_str f.(11 + 2 * i), dec_lines f.(12 + 2 * i))) in
+    (match db_assign_tag_in (dec_str "W") (dec_str "T") (dec_str f.(1)) (dec_str f.(2)) (dec_str f.(3)) req
+             (opt f.(5)) (dec_str f.(6)) (bool_of_field f.(7)) (dec_val f.(8)) (dec_val f.(9)) cs with
+     | Ok m -> Stdlib.String.concat "\t" ("ok" :: List.concat_map (fun (d, l) -> [enc_str d; enc_lines l]) m)
+     | Err k -> "err\t" ^ err_name k)
   | "cfops" ->
     (* ChainFile(file, name, tag) ; setVersion / removeVersion with a list, a string or None ; write.
        ops: set,version,flavors | rm,flavors  with flavors = ~ (None) or a semicolon list *)
